@@ -91,6 +91,10 @@ pub fn key_hint(c: &Case) -> String {
                     visit(&own.0);
                     others.iter().for_each(|x| visit(&x.0))
                 }
+                RosCase::ChainGeneral { chain, others, .. } => {
+                    chain.iter().for_each(|x| visit(&x.0));
+                    others.iter().for_each(|x| visit(&x.0))
+                }
                 RosCase::Chain { src, others, .. } | RosCase::ChainSummed { src, others, .. } => {
                     visit(src);
                     others.iter().for_each(|x| visit(&x.0))
